@@ -6,6 +6,7 @@ package subx
 import (
 	"bufio"
 	"bytes"
+	"context"
 	"encoding/json"
 	"errors"
 	"fmt"
@@ -84,7 +85,9 @@ func ConnectPausing(gw *pebbles.Gateway, pause time.Duration) (*ClientConn, erro
 	if pause > 0 {
 		srv = &pausingConn{Conn: srvPipe, pause: pause}
 	}
-	req := httptest.NewRequest("GET", "http://gateway.test/graphql", nil)
+	// like net/http: the request's context ends when the handler returns
+	ctx, cancel := context.WithCancel(context.Background())
+	req := httptest.NewRequest("GET", "http://gateway.test/graphql", nil).WithContext(ctx)
 	req.Header.Set("Upgrade", "websocket")
 	req.Header.Set("Connection", "Upgrade")
 	req.Header.Set("Sec-WebSocket-Key", "dGhlIHNhbXBsZSBub25jZQ==")
@@ -94,6 +97,7 @@ func ConnectPausing(gw *pebbles.Gateway, pause time.Duration) (*ClientConn, erro
 	cc := &ClientConn{c: cli, HandlerDone: make(chan struct{}), Frames: make(chan Frame, 4096)}
 	go func() {
 		defer close(cc.HandlerDone)
+		defer cancel()
 		defer func() {
 			if r := recover(); r != nil {
 				cc.HandlerPanic = fmt.Sprint(r)
